@@ -702,6 +702,16 @@ fn finish(
             "KNOWN-FINDING: property={} class={} cases={} {}",
             p.id, class, n, what
         );
+        // a replayable instance of the known finding (run output, not the findings file)
+        if !replaying {
+            if let Some(v) = out.violations.iter().filter(|v| &v.class == class).min_by_key(|v| v.case.len()) {
+                let rdir = vdir.join("replays").join(p.id);
+                std::fs::create_dir_all(&rdir).ok();
+                let path = rdir.join(format!("known_{}.json", sanitize(class)));
+                let j = json!({"property": p.id, "tier": tier.name(), "class": class, "leg": v.leg, "case": v.case, "detail": v.detail, "known_finding": true});
+                std::fs::write(&path, serde_json::to_string_pretty(&j).unwrap()).ok();
+            }
+        }
     }
     // replay files for unlisted violations (one per class, first case)
     let rdir = vdir.join("replays").join(p.id);
